@@ -129,7 +129,7 @@ func charvecMain(args []string) int {
 		fmt.Fprintln(os.Stderr, "no vectors", err)
 		return 2
 	}
-	var evals, nontriv, textLeaf int64
+	var evals, nontriv, textLeaf, markupLeaf int64
 	check := func(v *charVec, raw []byte, base bool) {
 		evals++
 		// oracle sanity: reference automaton against unicode/utf8
@@ -223,6 +223,28 @@ func charvecMain(args []string) int {
 			pv := *v
 			check(&pv, w, false)
 			detectCheck(&pv, w, len(w), 3072)
+			// the same bytes as the undeclared body of an XML / HTML document: sniffing also applies to
+			// text/xml and text/html leaves (mime.go); an ASCII prologue leaves the reference facts unchanged,
+			// a leading UTF-8 mark decides alone
+			for _, pro := range []string{`<?xml version="1.0"?><a>`, `<html><body><p>`} {
+				for _, mark := range []bool{false, true} {
+					pv := *v
+					doc := pro
+					if mark {
+						doc = "\xEF\xBB\xBF" + pro
+						pv.Bom = []string{"utf-8"}
+					}
+					w := exact(append([]byte(doc), raw...))
+					m := mimetype.Detect(w)
+					evals++
+					if b := baseType(m.String()); b == "text/xml" || b == "text/html" {
+						markupLeaf++
+						if ok, why := c11Holds(&pv, len(w), charsetOf(m)); !ok {
+							rep.violate(mkViolation("C11", "detect-undeclared-markup", w, 3072, why+" (result "+m.String()+")"))
+						}
+					}
+				}
+			}
 		}
 	}
 	// phase 2: limit = len(header): bytes beyond the limit (binary or not) must not matter
@@ -253,6 +275,7 @@ func charvecMain(args []string) int {
 	rep.Nontrivial = nontriv
 	rep.Extra["vectors"] = len(vecs)
 	rep.Extra["text_plain_leaf_results"] = textLeaf
+	rep.Extra["undeclared_xml_html_leaf_results"] = markupLeaf
 	for i := 0; i < len(vecs) && len(rep.Samples) < 8; i += len(vecs)/8 + 1 {
 		rep.sample(map[string]any{"bytes": fmt.Sprintf("%x", ints2bytes(vecs[i].I)), "model_charset": vecs[i].CS, "text": vecs[i].Txt, "cut_tail_valid": vecs[i].Ctv})
 	}
